@@ -396,7 +396,8 @@ Definition decision (cfg : config) (q : request) : option (kind * Z * list Z) + 
   (* inl (kind, algorithm, stats on success) or inr stats of an Ignore *)
   let ver := q_version q in
   let action0 := c_intended cfg in
-  if negb (q_decrypt_failed q) && negb (q_mode q =? 3) then inr [ver; 0; 1; 2] else
+  (* only client-mode packets are answered, whether or not they authenticate *)
+  if negb (q_mode q =? 3) then inr [ver; 0; 1; 2] else
   let action := if q_decrypt_failed q then (if action0 =? 1 then 1 else 0) else action0 in
   let reason := if q_decrypt_failed q && negb (action0 =? 1) then 2 else 4 in
   let cookie := if q_decrypt_failed q then None else q_cookie q in
